@@ -19,6 +19,7 @@ import (
 	"time"
 
 	"github.com/compose-spec/compose-go/v2/loader"
+	"github.com/compose-spec/compose-go/v2/tree"
 	"github.com/compose-spec/compose-go/v2/types"
 
 	"verifharness/core"
@@ -199,6 +200,104 @@ func runC08Whole(ctx *core.Ctx) {
 	}
 }
 
+// ---------------------------------------------------------------- interpolation on ⇒ off (load_on_ok_imp_off_ok)
+
+type onoffArgs struct {
+	Docs []core.T  `json:"docs"`
+	Opts wholeOpts `json:"opts"`
+}
+
+func onTableRow(p tree.Path) bool {
+	for pat := range loader.VerifCastTable() {
+		if p.Matches(pat) {
+			return true
+		}
+	}
+	return false
+}
+
+func realOnOff(raw json.RawMessage) any {
+	var a struct {
+		Docs []json.RawMessage `json:"docs"`
+		Opts wholeOpts         `json:"opts"`
+	}
+	if err := json.Unmarshal(raw, &a); err != nil {
+		return map[string]any{"bad": err.Error()}
+	}
+	on, off := a.Opts, a.Opts
+	on.SkipInterpolation, off.SkipInterpolation = false, true
+	return map[string]any{"on": mustJ(loadModelTrees(a.Docs, on, nil)), "off": mustJ(loadModelTrees(a.Docs, off, nil))}
+}
+
+func judgeOnOff(args, real, _ json.RawMessage) *core.Verdict {
+	if v := core.CrashVerdict(real); v != nil {
+		return v
+	}
+	var r struct {
+		On, Off json.RawMessage
+		Bad     string
+	}
+	if json.Unmarshal(real, &r) != nil || r.Bad != "" || r.On == nil || r.Off == nil {
+		return core.Skip("c08onoff: malformed case " + r.Bad)
+	}
+	for _, o := range []json.RawMessage{r.On, r.Off} {
+		if v := core.CrashVerdict(o); v != nil {
+			return v
+		}
+	}
+	on, off := parseOutcome(r.On), parseOutcome(r.Off)
+	if !on.isOk() {
+		// off may load where on fails (Canonical forgives unparsable short forms under SkipInterpolation): not this theorem
+		return core.Skip("does not load with interpolation on")
+	}
+	if !off.isOk() {
+		return core.Fail("whole:on-loads-off-fails", "LoadModelWithContext: `$`-free documents with no string on a cast row load with interpolation on and fail with SkipInterpolation: "+*off.Err)
+	}
+	if !core.CanonEqual(on.Ok, off.Ok) {
+		return core.Fail("whole:on-off-differ", "LoadModelWithContext: `$`-free documents with no string on a cast row give different dictionaries with interpolation on and off")
+	}
+	return nil
+}
+
+func runC08OnOff(ctx *core.Ctx) {
+	optSets := []wholeOpts{{ResolvePaths: true}, {ResolvePaths: true, SkipValidation: true}, {SkipNormalization: true, SkipDefaultValues: true}}
+	for i := 0; i < ctx.Pick(250, 10000); i++ {
+		nd := 1 + ctx.Rng.Intn(2)
+		var docs []core.T
+		for d := 0; d < nd; d++ {
+			doc := genDoc(ctx.Rng)
+			// the hypothesis of the theorem: no string on a row of the cast table — such leaves are written as what they cast to
+			for _, lf := range leavesOf(doc) {
+				if s, ok := lf.get().(string); ok && onTableRow(lf.Path) {
+					for pat, c := range loader.VerifCastTable() {
+						if lf.Path.Matches(pat) {
+							if v, err := c(s); err == nil {
+								lf.set(normNum(v))
+							}
+						}
+					}
+					ctx.Count("onoff:string-on-row-rewritten")
+				}
+			}
+			docs = append(docs, core.EncodeVal(doc))
+		}
+		ctx.Count(fmt.Sprintf("onoff-docs=%d", nd))
+		ctx.Add("c08onoff", onoffArgs{Docs: docs, Opts: optSets[ctx.Rng.Intn(len(optSets))]})
+	}
+}
+
+// normNum: what a caster returns, as the tree types the harness encodes (int64 → int, float32 → float64)
+func normNum(v any) any {
+	switch x := v.(type) {
+	case int64:
+		return int(x)
+	case float32:
+		return float64(x)
+	}
+	return v
+}
+
 func init() {
 	core.Register("c08whole", &core.CheckDef{Real: realWhole, Judge: judgeWhole, Timeout: 20 * time.Second})
+	core.Register("c08onoff", &core.CheckDef{Real: realOnOff, Judge: judgeOnOff, Timeout: 20 * time.Second})
 }
